@@ -150,15 +150,17 @@ PROPS = {
             {"harness": "H_C06_q", "cases": list(range(6)), "scale": SC},
             {"harness": "H_C06_sw", "cases": list(range(6)), "scale": SC},
             {"harness": "H_C06_compact", "cases": list(range(4)), "scale": SC},
+            {"harness": "H_C06_rec", "cases": list(range(6)), "scale": SC},
         ],
         "thorough": [
+            {"harness": "H_C06_rec", "cases": list(range(6)), "scale": SC},
             {"harness": "H_C06_compact", "cases": list(range(4)), "scale": SC},
             {"harness": "H_C06_t", "cases": list(range(6)), "scale": SC},
             {"harness": "H_C06_sw", "cases": list(range(6)), "scale": SC},
             {"harness": "H_C06_mid", "cases": list(range(6)), "scale": SC},
             {"harness": "H_C06_swmid", "cases": list(range(6)), "scale": SC},
         ],
-        "covers": {"quick": ["C06c.done", "C06c.power-failure-inside-compaction", "C06.done", "C06.durability-point", "C06.rolled-over", "power.all-unsynced-lost", "power.one-file-loses-suffix", "power.nothing-lost"]},
+        "covers": {"quick": ["C06.session-started-with-recovery", "C06c.done", "C06c.power-failure-inside-compaction", "C06.done", "C06.durability-point", "C06.rolled-over", "power.all-unsynced-lost", "power.one-file-loses-suffix", "power.nothing-lost"]},
         "bounds": {"quick": "compaction scenario: 2 synced puts, 2 unsynced symbolic writes, Compact with a power failure at every mutating FS call inside it; general scenario: 2 keys; prefix 2 puts then 3 symbolic steps from {put, delete, compact, sync} (explicit-Sync mode) / 2 steps in sync-after-write mode; power failure between any two operations; surviving prefixes: all kept | all unsynced data lost | one symbolic segment file keeps a symbolic proper prefix of its pending writes/truncations (last write cut at a 512-aligned offset) while the others keep everything",
                    "thorough": "4 steps; additionally power failure at every mutating FS call inside an operation"},
         "assumptions": COMMON_ASSUME + ["power-loss model of the property implemented by a harness FileSystem around fs.Mem: directory operations durable and ordered, file data/length volatile until File.Sync"],
@@ -222,11 +224,12 @@ PROPS = {
         "quick": [
             {"harness": "H_C16_rt", "cases": list(range(30)), "chunk": 3},
             {"harness": "H_C16_over", "cases": [0, 1, 2], "chunk": 1},
+            {"harness": "H_C16_seg", "cases": [0, 1, 2], "chunk": 3, "scale": "maxSegments=16"},
         ],
-        "covers": {"quick": ["C16.rt.done", "C16.over.done"]},
+        "covers": {"quick": ["C16.rt.done", "C16.over.done", "C16.seg.done", "C16s.rolled-over"]},
         "bounds": {"quick": "key lengths {0,1,2,65534,65535} x value lengths {0,1,2,511,512,513}: Put/Get/Has/Count/Items, clean restart, crash recovery (first 3 and last byte of key and value symbolic, rest a concrete pattern); over-long keys 65536..65538 sharing prefix and low 16 length bits with a stored short key; value of 512 MiB + 1 (virtual, arithmetic only); real constants (no scaling)"},
         "assumptions": COMMON_ASSUME,
-        "outside": "key lengths strictly between the representatives, values near 512 MiB actually materialised, records exceeding a segment's capacity (rollover arithmetic with symbolic lengths not built)",
+        "outside": "key lengths strictly between the representatives, values near 512 MiB actually materialised; segment-capacity boundary: records one byte short of / exactly / one byte over the remaining space and one larger than a whole segment (64-byte capacity)",
     },
     "C05": {
         "quick": [
@@ -289,11 +292,12 @@ PROPS = {
     },
     "C13": {
         "quick": [
+            {"harness": "H_C13_lock1", "pkg": "fs"},
             {"harness": "H_C13_lock2", "pkg": "fs"},
             {"harness": "H_C13_lock3", "pkg": "fs"},
             {"harness": "H_C13_open", "scale": SC},
         ],
-        "covers": {"quick": ["C13.lock.done", "C13.lock.an-opener-acquired", "C13.lock.all-openers-rejected", "C13.open.done", "C13.clean-end", "C13.unclean-end", "C13.open-failed-with-io-error-in-recovery"]},
+        "covers": {"quick": ["C13.lock1.done", "C13.lock1.acquired-after-release", "C13.lock.done", "C13.lock.an-opener-acquired", "C13.lock.all-openers-rejected", "C13.open.done", "C13.clean-end", "C13.unclean-end", "C13.open-failed-with-io-error-in-recovery"]},
         "bounds": {"quick": "fs.OS lock file over the kernel model: 1 releasing owner (unlink, close) and 2 or 3 openers (stat, open, flock), every interleaving of their system calls (scheduling points between the calls); DB level on fs.Mem: 3 sessions each ending by clean Close, process death, or an Open failing with an injected I/O error at a symbolic write of the recovery; recovery iff the last session did not complete Close (observed through the index-file renames), competing Open fails with the locked error and leaves names and sizes unchanged"},
         "assumptions": COMMON_ASSUME + ["kernel model of stat/open(O_CREAT)/flock(LOCK_EX|LOCK_NB)/unlink/close (hand-written from the POSIX/Linux contract; counterexamples are replayed on the real kernel through the verif yield hooks)"],
         "outside": "NFS and other flock semantics, Windows/Plan 9 lock files, more than 3 openers",
